@@ -42,10 +42,25 @@ struct FnDir {
     hoist: Option<usize>,
     sig: Option<String>,
     inline_then: Vec<usize>,
+    /// `@@tail name`: the tail expression of the function is bound (`let name = <tail>;`), the
+    /// `@@post` text follows, then `name` is the new tail — so that proof text can follow the result
+    tail: Option<String>,
+    /// E17: iterator sources are renamed to the `VxIter` stand-ins of units/inc/iter.vx
+    viter: bool,
+    /// E18: `_ = map.entry(k).or_insert_with(|| body)` is replaced by its std definition
+    inline_entry: bool,
     substs: Vec<(String, String)>,
     spec: String,
     closures: HashMap<usize, String>,
+    /// `@@closure ~text`: header for the innermost closure whose source text contains `text`
+    /// (robust against reordering of closures, unlike ordinals)
+    closures_by_text: Vec<(String, String)>,
+    /// `@@closure k ~text`: the innermost closure containing `text` if exactly one does, else closure k
+    closures_pref: Vec<(usize, String, String)>,
     loops: HashMap<usize, String>,
+    /// `@@loop_begin k` / `@@loop_end k`: ghost / proof text at the start / end of the body of loop k
+    loop_begin: HashMap<usize, String>,
+    loop_end: HashMap<usize, String>,
     pre: String,
     post: String,
     befores: Vec<(String, String)>,
@@ -197,8 +212,16 @@ fn parse_template(path: &Path, nodes: &mut Vec<Node>) {
                         }
                         "clear" => match rest.as_str() {
                             "befores" => d.befores.clear(),
-                            "loops" => d.loops.clear(),
-                            "closures" => d.closures.clear(),
+                            "loops" => {
+                                d.loops.clear();
+                                d.loop_begin.clear();
+                                d.loop_end.clear();
+                            }
+                            "closures" => {
+                                d.closures.clear();
+                                d.closures_by_text.clear();
+                                d.closures_pref.clear();
+                            }
                             "pre" => d.pre.clear(),
                             "post" => d.post.clear(),
                             other => die(&format!("{sctx}: @@clear {other}?")),
@@ -213,6 +236,9 @@ fn parse_template(path: &Path, nodes: &mut Vec<Node>) {
                         "nopub" => d.nopub = true,
                         "hoist" => d.hoist = Some(rest.parse().unwrap_or_else(|_| die(&format!("{sctx}: @@hoist needs closure ordinal")))),
                         "sig" => d.sig = Some(rest),
+                        "tail" => d.tail = Some(rest),
+                        "viter" => d.viter = true,
+                        "inline_or_insert_with" => d.inline_entry = true,
                         "inline_then" => d.inline_then.push(rest.parse().unwrap_or_else(|_| die(&format!("{sctx}: @@inline_then needs closure ordinal")))),
                         "from" => d.from = Some(rest),
                         "to" => d.to = Some(rest),
@@ -223,14 +249,29 @@ fn parse_template(path: &Path, nodes: &mut Vec<Node>) {
                         "pre" => d.pre = multiline(&mut i),
                         "post" => d.post = multiline(&mut i),
                         "closure" => {
-                            let k: usize = rest.parse().unwrap_or_else(|_| die(&format!("{sctx}: @@closure needs ordinal")));
-                            let s = multiline(&mut i);
-                            d.closures.insert(k, s);
+                            if let Some((k, anchor)) = rest.split_once('~').filter(|(k, _)| !k.trim().is_empty()) {
+                                let k: usize = k.trim().parse().unwrap_or_else(|_| die(&format!("{sctx}: @@closure k ~text: bad ordinal")));
+                                let s = multiline(&mut i);
+                                d.closures_pref.push((k, anchor.trim().to_string(), s));
+                            } else if let Some(anchor) = rest.strip_prefix('~') {
+                                let anchor = anchor.trim().to_string();
+                                let s = multiline(&mut i);
+                                d.closures_by_text.push((anchor, s));
+                            } else {
+                                let k: usize = rest.parse().unwrap_or_else(|_| die(&format!("{sctx}: @@closure needs ordinal or ~text")));
+                                let s = multiline(&mut i);
+                                d.closures.insert(k, s);
+                            }
                         }
                         "loop" => {
                             let k: usize = rest.parse().unwrap_or_else(|_| die(&format!("{sctx}: @@loop needs ordinal")));
                             let s = multiline(&mut i);
                             d.loops.insert(k, s);
+                        }
+                        "loop_begin" | "loop_end" => {
+                            let k: usize = rest.parse().unwrap_or_else(|_| die(&format!("{sctx}: @@{kw} needs ordinal")));
+                            let s = multiline(&mut i);
+                            if kw == "loop_begin" { d.loop_begin.insert(k, s); } else { d.loop_end.insert(k, s); }
                         }
                         "before" => {
                             let s = multiline(&mut i);
@@ -342,7 +383,13 @@ struct Ed<'a> {
     loop_idx: usize,
     awaits: usize,
     closures_used: Vec<usize>,
+    closures_by_text_used: Vec<usize>,
+    /// resolution of `closures_pref`: closure ordinal -> (entry, header)
+    closures_resolved: HashMap<usize, (usize, String)>,
+    closures_pref_used: Vec<usize>,
     inline_then_used: Vec<usize>,
+    viter_used: usize,
+    inline_entry_used: usize,
     loops_used: Vec<usize>,
     befores_used: Vec<bool>,
     macros_used: Vec<bool>,
@@ -353,6 +400,27 @@ struct Ed<'a> {
 }
 
 impl<'a> Ed<'a> {
+    /// `@@closure k ~text`: prefer the innermost closure that contains the text
+    fn resolve_closure_prefs(&mut self, block: &syn::Block) {
+        if self.dir.closures_pref.is_empty() {
+            return;
+        }
+        let mut cl = ClosureLister { all: vec![] };
+        cl.visit_block(block);
+        let mut res: HashMap<usize, (usize, String)> = HashMap::new();
+        for (n, (k, anchor, h)) in self.dir.closures_pref.iter().enumerate() {
+            let cands: Vec<usize> = (0..cl.all.len())
+                .filter(|&i| {
+                    let (s, e) = cl.all[i];
+                    self.src[s..e].contains(anchor.as_str())
+                        && !cl.all.iter().any(|&(s2, e2)| s2 > s && e2 <= e && self.src[s2..e2].contains(anchor.as_str()))
+                })
+                .collect();
+            let idx = if cands.len() == 1 { cands[0] } else { *k };
+            res.insert(idx, (n, h.clone()));
+        }
+        self.closures_resolved = res;
+    }
     fn new(src: &'a str, dir: &'a FnDir) -> Self {
         Ed {
             src,
@@ -366,7 +434,12 @@ impl<'a> Ed<'a> {
             loop_idx: 0,
             awaits: 0,
             closures_used: vec![],
+            closures_by_text_used: vec![0; dir.closures_by_text.len()],
+            closures_resolved: dir.closures_pref.iter().enumerate().map(|(n, (k, _, h))| (*k, (n, h.clone()))).collect(),
+            closures_pref_used: vec![0; dir.closures_pref.len()],
             inline_then_used: vec![],
+            viter_used: 0,
+            inline_entry_used: 0,
             loops_used: vec![],
             befores_used: vec![false; dir.befores.len()],
             macros_used: vec![false; dir.macros.len()],
@@ -568,6 +641,32 @@ impl<'a, 'ast> Visit<'ast> for Ed<'a> {
         self.errors.push(format!("async block at line {} is not supported", line_of(self.src, e.span().byte_range().start)));
     }
     fn visit_expr_assign(&mut self, e: &'ast syn::ExprAssign) {
+        // E18: `_ = map.entry(k).or_insert_with(|| body)` (result discarded, closure captures `&mut`
+        // state, which Verus rejects) is replaced by the std definition of the call:
+        // `{ let vx_k = k; if !map.contains_key(&vx_k) { let vx_v = body; let _ = map.insert(vx_k, vx_v); } }`
+        if self.dir.inline_entry && matches!(*e.left, syn::Expr::Infer(_)) {
+            if let syn::Expr::MethodCall(oi) = &*e.right {
+                if oi.method == "or_insert_with" && oi.args.len() == 1 {
+                    if let (syn::Expr::Closure(c), syn::Expr::MethodCall(en)) = (&oi.args[0], &*oi.receiver) {
+                        let place_ok = matches!(*en.receiver, syn::Expr::Field(_) | syn::Expr::Path(_));
+                        if c.inputs.is_empty() && en.method == "entry" && en.args.len() == 1 && place_ok {
+                            self.inline_entry_used += 1;
+                            let es = e.span().byte_range();
+                            let ks = en.args[0].span().byte_range();
+                            let bs = c.body.span().byte_range();
+                            let x = self.src[en.receiver.span().byte_range()].to_string();
+                            self.push(es.start, ks.start, "{ let vx_k = ", "E18-or-insert-with-inlined", true);
+                            self.push(ks.end, bs.start, format!("; if !{x}.contains_key(&vx_k) {{ let vx_v = "), "E18-or-insert-with-inlined", true);
+                            self.push(bs.end, es.end, format!("; let _ = {x}.insert(vx_k, vx_v); }} }}"), "E18-or-insert-with-inlined", true);
+                            self.visit_expr(&en.args[0]);
+                            self.closure_idx += 1; // the closure literal disappears but keeps its ordinal
+                            self.visit_expr(&c.body);
+                            return;
+                        }
+                    }
+                }
+            }
+        }
         if matches!(*e.left, syn::Expr::Infer(_)) {
             let s = e.span().byte_range().start;
             self.push(s, s, "let ", "E5-let-underscore", false);
@@ -592,6 +691,16 @@ impl<'a, 'ast> Visit<'ast> for Ed<'a> {
                     self.visit_expr(&c.body);
                     return;
                 }
+            }
+        }
+        // E17: iterator sources are renamed to the eager `VxIter` stand-ins (units/inc/iter.vx), whose
+        // adaptor methods carry ASSUMED specifications of the std / itertools adaptors of the same name
+        if self.dir.viter && e.args.is_empty() && e.turbofish.is_none() {
+            let m = e.method.to_string();
+            if matches!(m.as_str(), "iter" | "into_iter" | "drain" | "keys" | "values" | "into_values" | "into_keys") {
+                let r = e.method.span().byte_range();
+                self.viter_used += 1;
+                self.push(r.start, r.end, format!("vx_{m}"), "E17-iterator-source", false);
             }
         }
         // E14: a std datatype constructor used as a function value (`.map_ok(Some)`) is
@@ -631,8 +740,29 @@ impl<'a, 'ast> Visit<'ast> for Ed<'a> {
         let start = c.span().byte_range().start;
         let bstart = c.body.span().byte_range().start;
         let bend = c.body.span().byte_range().end;
-        if let Some(h) = self.dir.closures.get(&idx) {
+        let mut header: Option<&String> = self.dir.closures.get(&idx);
+        let resolved = self.closures_resolved.get(&idx).cloned();
+        if header.is_some() {
             self.closures_used.push(idx);
+        } else if let Some((n, _)) = &resolved {
+            self.closures_pref_used[*n] += 1;
+            header = resolved.as_ref().map(|(_, h)| h);
+        } else {
+            // text-anchored header: this closure contains the anchor and none of its nested closures does
+            let text = &self.src[c.span().byte_range()];
+            for (n, (anchor, h)) in self.dir.closures_by_text.iter().enumerate() {
+                if text.contains(anchor.as_str()) {
+                    let mut inner = NestedClosureTexts { src: self.src, hit: false, anchor };
+                    inner.visit_expr(&c.body);
+                    if !inner.hit {
+                        header = Some(h);
+                        self.closures_by_text_used[n] += 1;
+                        break;
+                    }
+                }
+            }
+        }
+        if let Some(h) = header {
             // `$k` in a spliced header stands for the name the source gives to parameter k, so that
             // renaming a closure parameter does not invalidate the header
             let mut h = h.trim().to_string();
@@ -702,6 +832,14 @@ impl<'a, 'ast> Visit<'ast> for Ed<'a> {
                 inv_text = inv_text.lines().skip(1).collect::<Vec<_>>().join("\n");
             }
             self.push(b, b, format!("\n{}\n", inv_text), "splice-loop-invariant", false);
+        }
+        if let Some(t) = self.dir.loop_begin.get(&idx) {
+            let b = l.body.span().byte_range().start + 1;
+            self.push(b, b, format!("\n{}\n", t.trim_end()), "splice-loop-ghost", false);
+        }
+        if let Some(t) = self.dir.loop_end.get(&idx) {
+            let e = l.body.span().byte_range().end - 1;
+            self.push(e, e, format!("\n{}\n", t.trim_end()), "splice-loop-ghost", false);
         }
         visit::visit_expr_for_loop(self, l);
     }
@@ -969,6 +1107,32 @@ fn stmt_text_no_attrs<'s>(src: &'s str, s: &syn::Stmt, start: usize, end: usize)
     src[st..end].trim_start()
 }
 
+/// all closures of a block in visiting order: (span, spans of the closures nested inside)
+struct ClosureLister {
+    all: Vec<(usize, usize)>,
+}
+impl<'ast> Visit<'ast> for ClosureLister {
+    fn visit_expr_closure(&mut self, c: &'ast syn::ExprClosure) {
+        let r = c.span().byte_range();
+        self.all.push((r.start, r.end));
+        visit::visit_expr_closure(self, c);
+    }
+}
+
+/// does any closure nested in the visited expression contain the anchor text?
+struct NestedClosureTexts<'a> {
+    src: &'a str,
+    anchor: &'a str,
+    hit: bool,
+}
+impl<'ast, 'a> Visit<'ast> for NestedClosureTexts<'a> {
+    fn visit_expr_closure(&mut self, c: &'ast syn::ExprClosure) {
+        if self.src[c.span().byte_range()].contains(self.anchor) {
+            self.hit = true;
+        }
+    }
+}
+
 struct ClosureFinder<'ast> {
     want: usize,
     seen: usize,
@@ -986,6 +1150,29 @@ impl<'ast> Visit<'ast> for ClosureFinder<'ast> {
 
 // ------------------------------------------------------------------------------------------------
 // main
+
+/// `impl Iterator<Item = X> [+ ..]` -> source text of X
+fn impl_iterator_item(ty: &syn::Type, src: &str) -> Option<String> {
+    if let syn::Type::ImplTrait(it) = ty {
+        for b in &it.bounds {
+            if let syn::TypeParamBound::Trait(tb) = b {
+                let seg = tb.path.segments.last()?;
+                if seg.ident == "Iterator" {
+                    if let syn::PathArguments::AngleBracketed(ab) = &seg.arguments {
+                        for a in &ab.args {
+                            if let syn::GenericArgument::AssocType(at) = a {
+                                if at.ident == "Item" {
+                                    return Some(src[at.ty.span().byte_range()].to_string());
+                                }
+                            }
+                        }
+                    }
+                }
+            }
+        }
+    }
+    None
+}
 
 fn main() {
     let args: Vec<String> = std::env::args().collect();
@@ -1253,6 +1440,9 @@ fn main() {
                     continue;
                 }
                 let mut ed = Ed::new(&src.text, d);
+                if d.hoist.is_none() && !d.is_slice {
+                    ed.resolve_closure_prefs(f.block);
+                }
                 let mut counts: BTreeMap<String, usize> = BTreeMap::new();
                 let emitted: String;
                 let src_range: (usize, usize);
@@ -1373,6 +1563,15 @@ fn main() {
                             _ => die(&format!("{ctx}: @@mutself but receiver is not `&self`")),
                         }
                     }
+                    // E17: a returned `impl Iterator<Item = X>` is the eager stand-in `VxIter<X>`
+                    if d.viter {
+                        if let syn::ReturnType::Type(_, ty) = &sig.output {
+                            if let Some(item) = impl_iterator_item(ty, &src.text) {
+                                let r = ty.span().byte_range();
+                                ed.push(r.start, r.end, format!("VxIter<{item}>"), "E17-iterator-source", true);
+                            }
+                        }
+                    }
                     if let Some(rn) = &d.ret {
                         match &sig.output {
                             syn::ReturnType::Type(_, ty) => {
@@ -1403,6 +1602,16 @@ fn main() {
                         ed.before_next_pass(&f.block.stmts);
                         for s in &f.block.stmts {
                             ed.visit_stmt(s);
+                        }
+                    }
+                    if let (Some(tn), false) = (&d.tail, stub_this) {
+                        match f.block.stmts.last() {
+                            Some(syn::Stmt::Expr(e, None)) => {
+                                let r = e.span().byte_range();
+                                ed.push(r.start, r.start, format!("let {tn} = "), "splice-tail-binding", false);
+                                ed.push(r.end, r.end, ";", "splice-tail-binding", false);
+                            }
+                            _ => die(&format!("{ctx}: @@tail but the function body does not end in a tail expression")),
                         }
                     }
                     ed.finish_cfg();
@@ -1444,6 +1653,9 @@ fn main() {
                         s.push_str(&body);
                         if !stub_this {
                             s.push_str(&d.post);
+                            if let Some(tn) = &d.tail {
+                                s.push_str(&format!("\n        {tn}\n"));
+                            }
                         }
                         s.push_str("}\n");
                         s
@@ -1512,6 +1724,16 @@ fn check_used(ed: &Ed, d: &FnDir, ctx: &str) {
     for k in d.closures.keys() {
         if !ed.closures_used.contains(k) {
             die(&format!("{ctx}: closure#{k} does not exist any more ({} closures found)", ed.closure_idx));
+        }
+    }
+    for (n, (anchor, _)) in d.closures_by_text.iter().enumerate() {
+        if ed.closures_by_text_used[n] != 1 {
+            die(&format!("{ctx}: @@closure ~{anchor}: {} closures match (exactly one expected)", ed.closures_by_text_used[n]));
+        }
+    }
+    for (n, (k, anchor, _)) in d.closures_pref.iter().enumerate() {
+        if ed.closures_pref_used[n] != 1 {
+            die(&format!("{ctx}: @@closure {k} ~{anchor}: no such closure any more ({} closures found)", ed.closure_idx));
         }
     }
     for k in &d.inline_then {
